@@ -437,6 +437,11 @@ def check_policy_log(policy, what):
     bad = [e for e in policy.log if e[0] != "greedy"]
     if bad:
         return [("values", f"{what}: baseline policy called with decode_type={bad[0][0]!r}, not greedy")]
+    # the attached value is the reward of the FROZEN baseline policy on the instance: it is rolled out in eval() mode
+    # (in train mode batch-norm / dropout make a row's value depend on its batch-mates and on the call history)
+    trn = [e for e in policy.log if e[1]]
+    if trn:
+        return [("values", f"{what}: the baseline policy is rolled out in train() mode (batch of {trn[0][2]}): its values then depend on the other rows of the evaluation batch")]
     return []
 
 
